@@ -178,7 +178,23 @@ def gen(rng, tier):
         cases.append({"k": "text", "text": t})
     for i in range(n // 2):
         cases.append(gen_tfs(rng))
+    # documentation strings that need their quotes escaped in more than one place: runs of three to
+    # seven quotes, quotes after a backslash, a backslash before the closing delimiter - on a type
+    # definition, on one of its terms, on a docstring-only addendum and on a lexical rule
+    for doc in HARD_DOCS:
+        cases.append({"k": "ent", "ent": {"e": "def", "id": "head", "doc": doc,
+                                          "conj": [{"t": "id", "s": "sign", "doc": None}]}})
+        cases.append({"k": "ent", "ent": {"e": "def", "id": "head", "doc": None,
+                                          "conj": [{"t": "id", "s": "sign", "doc": doc},
+                                                   {"t": "id", "s": "noun", "doc": None}]}})
+        cases.append({"k": "ent", "ent": {"e": "add", "id": "head", "conj": [], "doc": doc}})
+        cases.append({"k": "ent", "ent": {"e": "lex", "id": "comp_rule", "affix": "suffix", "pats": [["*", "s"]],
+                                          "conj": [{"t": "id", "s": "sign", "doc": None}], "doc": doc}})
     return cases
+
+
+HARD_DOCS = ['a """ b', '""""', '"""""', 'x """""" y', '"""""""', 'a \\""" b', 'a \\" b', '\\"', 'q \\',
+             'two\nlines """" end', '"', '""']
 
 
 TFS_FEATS = ["A", "B", "c", "Head", "VAL", "x-y"]
